@@ -29,9 +29,10 @@ C = 4                                   # a, b, c, blank
 CHARS = ['a', 'b', 'c']
 WIDTHS = [1, 3, 4, 5, 31, 32, 33, 100, 290, 300, 440]        # 440: fits the smallest engine maximum (480 px) only after the right padding is cut
 # alphabet entries: (width, content seed)
-CROPS = [(w, i) for i, w in enumerate(WIDTHS)] + [(32, 40), (500, 41), (36, 50), (2, 60), (448, 70), (417, 71)]
+CROPS = [(w, i) for i, w in enumerate(WIDTHS)] + [(32, 40), (500, 41), (36, 50), (2, 60), (448, 70), (417, 71), (8, 61), (64, 60)]
 # seed 50: very confident frames; seed 60: blank crop; 448 px fills the smallest engine maximum (480 px) exactly; 417 px is the first width
-# whose padded tensor (rounded up to a multiple of 32) does
+# whose padded tensor (rounded up to a multiple of 32) does; seed 61: the float64 all-zero H x H placeholder the page-level cropper leaves on a line
+# it could not crop - it has the same bytes as the blank uint8 crop of 8 x H pixels next to it (seed 60, 64 px)
 MODES = ['sparse', 'dense', 'tight', 'nologits']
 DEPTH3_QUICK = [0, 4, 5, 7, 8, 9, 10, 11, 12, 14]      # lists of 3 in the quick tier use this sub-alphabet
 BOUNDS = {'quick': dict(depth=3, bs=[1, 2, 3, 16], bs3=[1, 16], ctx3=[0], deep_alphabet=0),
@@ -56,6 +57,8 @@ def crop(i):
         levels = [(250, 2, 0), (14, 13, 5), (0, 250, 1), (10, 20, 19), (12, 40, 10), (1, 0, 250)]
     if seed == 60:
         return img                        # an entirely blank line (e.g. the cropper's fallback crop): decodes to ''
+    if seed == 61:
+        return np.zeros((H, w, 3))        # (float64, as page_parser.LineCropper writes it)
     for blk in range((w + 3) // 4):
         k = (blk * 7 + seed * 3 + blk // 3) % (len(levels) + 2)
         x0, x1 = 4 * blk, min(w, 4 * blk + 4)
@@ -265,6 +268,32 @@ def check_case(case, ctx):
         if len(set(widths)) < len(widths):
             ctx.tag('equal-width-lines')
     ctx.outcome(tuple(out1[0]))
+    # environment fault: the network call fails ONCE with an out-of-memory error on a batch of several lines (what a GPU does under pressure).
+    # Whether process_lines gives up or recovers is its business; the NEXT call on the same engine must give every line its own result again
+    if lst and len(lst) <= 3 and bs >= 2 and mode in ('sparse', 'dense') and cx == 0:
+        fe = make_engine(bs, cx)
+        real, fired = fe.run_ocr, []
+
+        def failing_once(batch_data):
+            if not fired and len(batch_data) > 1:
+                fired.append(len(batch_data))
+                raise RuntimeError('CUDA out of memory. Tried to allocate 2.00 GiB (injected by the harness)')
+            return real(batch_data)
+        fe.run_ocr = failing_once
+        try:
+            run(fe, [crop(3), crop(4)], mode)               # two narrow lines: one batch at every batch size >= 2
+        except RuntimeError:
+            pass
+        del fe.run_ocr
+        if fired:
+            out4 = run(fe, imgs, mode)
+            ctx.executed(2)
+            for pos, i in enumerate(lst):
+                ref = reference(i, bs, cx, mode)
+                if not compare(pos, i, (out4[0][pos], out4[1][pos], out4[2][pos]), ref, mode, CROPS[i][0], bs, cx, f'{K}/call-after-an-out-of-memory-failure',
+                               desc + f' (the call after one - on two narrow lines - in which the network raised out-of-memory once)', case, ctx):
+                    return
+            ctx.tag('call-after-an-injected-out-of-memory-error')
     # engines with a writer/embedding id: changing engine.embed_id between two calls (as user_scripts/select_embed_id.py does) must
     # take effect for every line of the next call, whatever batches were run before
     if mode == 'sparse' and cx == 0 and len(lst) >= 2 and bs in (1, 16):
@@ -275,7 +304,7 @@ def check_case(case, ctx):
         out3 = run(ee, imgs, mode)
         ctx.executed(2)
         for pos, i in enumerate(lst):
-            key = ('embed', i, bs if CROPS[i][0] + 32 > 480 else 0)
+            key = ('embed', i, bs if CROPS[i][0] + 31 + 64 > 480 else 0)
             if key not in _REF:
                 t, lg, co = run(stubs.make_embed_engine(C, CHARS, 2, line_px_height=H, batch_size=bs), [crop(i)], mode)
                 _REF[key] = (t[0], todense(lg[0]), co[0])
@@ -323,6 +352,6 @@ def describe(tier):
         'assumptions': ['frames beyond a line\'s own tensor are padding and only need to decode to blank',
                         'over-long lines are compared with the alone-run under the same pixel budget (truncation depends on it)'],
         'min_nontrivial': 100,
-        'required_tags': ['network-with-minus-infinity-logits', 'more-than-255-lines-in-one-call', 'embedding-engine-id-changed-between-calls', 'mixed-width-batches', 'truncated-line', 'several-batches', 'equal-width-lines', 'page-ocr-pages',
+        'required_tags': ['call-after-an-injected-out-of-memory-error', 'network-with-minus-infinity-logits', 'more-than-255-lines-in-one-call', 'embedding-engine-id-changed-between-calls', 'mixed-width-batches', 'truncated-line', 'several-batches', 'equal-width-lines', 'page-ocr-pages',
                           'sparse-keeps-small-and-prunes-smaller'],
     }
